@@ -16,6 +16,12 @@ use std::panic::{catch_unwind, AssertUnwindSafe};
 
 pub const N_KEYS: usize = 4;
 pub const NAMES: [&str; 8] = ["right", "resource", "read", "query", "p", "q", "file1", "k"];
+/// the default symbol table (datalog/symbol.rs DEFAULT_SYMBOLS), in order
+pub const DEFAULT_SYMBOLS: [&str; 28] = [
+    "read", "write", "resource", "operation", "right", "time", "role", "owner", "tenant", "namespace", "user", "team",
+    "service", "admin", "email", "group", "member", "ip_address", "client", "client_ip", "domain", "path", "version",
+    "cluster", "node", "hostname", "nonce", "query",
+];
 pub const ARGS: [&str; 9] = ["read", "write", "file1", "file2", "p", "", "x", "1024", "admin"];
 pub const VARS: [&str; 5] = ["x", "y", "read", "p", "file1"];
 
@@ -904,6 +910,21 @@ pub fn corpus() -> Vec<History> {
             c0: c1.clone(),
             probes: probes.clone(),
             ops: vec![Op::AppendTP(Side::V, 0, tp.clone()), Op::AppendRaw(r), Op::Append(Side::U, later.clone())],
+        });
+    }
+    // every default symbol as a predicate name and as a string, in the authority block, in an
+    // appended block and in a third-party block (added after the seeded change C12-4, which
+    // broke the default-table lookup of one symbol only)
+    for d in DEFAULT_SYMBOLS.iter() {
+        let use_d = Content {
+            facts: vec![fact(d, d), fact("p", d)],
+            checks: vec![(d.to_string(), d.to_string(), vec![])],
+            ..Default::default()
+        };
+        v.push(History {
+            c0: use_d.clone(),
+            probes: vec![None, Some((d.to_string(), None)), Some(("p".into(), None))],
+            ops: vec![Op::Append(Side::U, use_d.clone()), Op::AppendTP(Side::V, 0, use_d.clone()), Op::Reload(Side::U)],
         });
     }
     // sealing, then appending
